@@ -355,6 +355,27 @@ func (x *Exec) loopEnv(s *State, li *loopInfo) *Env {
 		}
 	}
 	fr := s.frame
+	// indices of the enclosing range loops: $i1 is the outermost
+	{
+		la := x.loopsOf(li.fn)
+		var chain []*loopInfo
+		for _, o := range la.list {
+			if o != li && o.body[li.header] {
+				chain = append(chain, o)
+			}
+		}
+		sort.Slice(chain, func(a, b int) bool { return len(chain[a].body) > len(chain[b].body) })
+		chain = append(chain, li)
+		for d, o := range chain {
+			for _, in := range o.header.Instrs {
+				if phi, ok := in.(*ssa.Phi); ok && phi.Comment == "rangeindex" {
+					if t, ok := fr.regs[phi].(Term); ok {
+						env.vars[fmt.Sprintf("$i%d", d+1)] = SVal{t: add(t, intLit(1)), gt: types.Typ[types.Int]}
+					}
+				}
+			}
+		}
+	}
 	for _, in := range li.header.Instrs {
 		phi, ok := in.(*ssa.Phi)
 		if !ok {
